@@ -76,6 +76,8 @@ def build(D, res="main", mc=1):
             f.__qualname__ = f.__name__ = f"f{k}"
             return f
         tags = D.get("tags", {}).get(str(k)) or None
+        if k in (D.get("calltag") or []):
+            tags = None         # this node gets its tags where it is called (twz_tag), not where it is decorated
         xs[k] = xn(mk(), debug=D["kind"][k - 1] == "debug", setup=D["kind"][k - 1] == "setup",
                    resource=resource, tag=tuple(tags) if tags else None)
     lines = []
@@ -86,6 +88,8 @@ def build(D, res="main", mc=1):
             parts.append("7")
         if sa == k:
             parts.append("p")
+        if k in (D.get("calltag") or []) and D.get("tags", {}).get(str(k)):
+            parts.append(f"twz_tag={tuple(D['tags'][str(k)])!r}")
         lines.append(f"    v{k} = X[{k}]({', '.join(parts)})")
     # some return positions are an indexed usage of the node's result (("v", k)[1] == k): an unexecuted node reads as None there too
     idx = D.get("idxret") or []
@@ -209,7 +213,7 @@ def selections(D, rng, limit):
 def run_dag(D, rng, limit, forms=("id", "ref", "tag", "grp")):
     """All observations for one DAG description; returns the JSON record for SelCheck."""
     rec = {"n": D["n"], "deps": D["deps"], "kind": D["kind"], "const": D["const"], "tags": D.get("tags", {}),
-           "obs": [], "als": [], "built": True, "setuparg": D.get("setuparg", 0), "idxret": D.get("idxret") or [],
+           "obs": [], "als": [], "built": True, "setuparg": D.get("setuparg", 0), "idxret": D.get("idxret") or [], "calltag": D.get("calltag") or [],
            "tagseq": [D.get("tags", {}).get(str(k), []) for k in range(1, D["n"] + 1)]}
     try:
         base, ids, xs = build(D, res=D.get("res", "main"), mc=D.get("mc", 1))
@@ -267,6 +271,8 @@ def dag_space(n, rng, const_mode="sample", with_illegal=True):
                     a, b = rng.sample(range(1, n + 1), 2)
                     tags[str(b)].append(f"f{a}")     # a tag equal to another node's id: the tag wins
                 D2["tags"] = tags
+                if rng.random() < 0.4:
+                    D2["calltag"] = [k for k in range(1, n + 1) if rng.random() < 0.5]
                 if rng.random() < 0.4:
                     D2["idxret"] = [k for k in range(1, n + 1) if rng.random() < 0.5]
                 if rng.random() < 0.15:
